@@ -15,9 +15,13 @@ Modelling decisions (DESIGN.md section 3, C06):
   type `β` with `+` and `0`.
 * The one floating-point computation of the search,
   `ind_min + int((ind_max-ind_min) * (float(val-arr[ind_min]) / (arr[ind_max]-arr[ind_min])))`,
-  is a **parameter** `guess ind_min ind_max` of the model.  A guess outside
-  `[ind_min, ind_max]` is outside the modelled domain: the model answers `Err.unmodelled`
-  (Python would index the array with a wrapped or invalid index, or loop).
+  is a **parameter** `guess ind_min ind_max : Int` of the model.  Since lena 4fbe73b
+  (notes/C06_defect_3.md) the code treats a guess at or beyond a bound as a guess on that bound, so
+  *every* integer value of the guess is inside the modelled domain and the search never answers
+  `Err.unmodelled` (before the fix a guess outside `[ind_min, ind_max]` made the real code hang or
+  raise `IndexError`).  Not modelled: a guess that is not an integer at all (`int(nan)` raises
+  `ValueError`, `float()` of a huge integer raises `OverflowError`) — NaN coordinates and overflowing
+  differences are excluded.
 * Python exceptions are explicit: `Except Err ρ` with the exception class.
 * `bins` are `NArr β` (nested lists); aliasing between sub-lists of user-supplied bins is not
   modelled (`init_bins` builds distinct lists).
@@ -97,9 +101,9 @@ def checkEdgesIncreasing : Edges α → Except Err Unit
 is `IndexError`.  `guess lo hi` is the value of `ind_guess` (see the file header).
 
 The recursion is well-founded on `hi - lo`: every `continue` and every assignment of the last
-`if/else` strictly decreases `ind_max - ind_min` *because* the guess is within
-`[ind_min, ind_max]` and differs from both ends there — this is the termination argument of
-the search, checked by Lean when this definition is accepted. -/
+`if/else` strictly decreases `ind_max - ind_min` — a guess `≤ ind_min` or `≥ ind_max` moves one
+bound by one, any other guess lies strictly between the bounds.  This is the termination
+argument of the search for **every** guess, checked by Lean when this definition is accepted. -/
 def bin1dLoop (guess : Nat → Nat → Int) (val : α) (arr : List α) (lo hi : Nat) : Except Err Int :=
   match arr[lo]? with
   | none => .error .indexError
@@ -123,9 +127,8 @@ def bin1dLoop (guess : Nat → Nat → Int) (val : α) (arr : List α) (lo hi : 
         if ahi ≤ val then .ok (hi : Int)        -- `val >= arr[ind_max]`
         else
           let g := guess lo hi
-          if g < (lo : Int) ∨ (hi : Int) < g then .error .unmodelled
-          else if (lo : Int) = g then bin1dLoop guess val arr (lo + 1) hi       -- `ind_min += 1; continue`
-          else if (hi : Int) = g then bin1dLoop guess val arr lo (hi - 1)       -- `ind_max -= 1; continue`
+          if g ≤ (lo : Int) then bin1dLoop guess val arr (lo + 1) hi            -- `ind_guess <= ind_min`: `ind_min += 1; continue`
+          else if (hi : Int) ≤ g then bin1dLoop guess val arr lo (hi - 1)       -- `ind_guess >= ind_max`: `ind_max -= 1; continue`
           else
             match arr[g.toNat]? with
             | none => .error .indexError
